@@ -330,3 +330,194 @@ func c02SchemeStream(w *c02World, st *c02Streams) {
 		}
 	}
 }
+
+// c02ReuseStream: completeness under REUSE of the partial signature objects.  The votes, view signatures and
+// timeout-message signatures are created once (the objects returned by Sign) and kept; several certificates
+// are then assembled from overlapping subsets in several orders (the first argument varies, one set is
+// assembled twice).  After every assembly: the assembled certificate verifies at every replica (cache off and
+// on), every input object still has the bytes and participants it had before (copy taken up front) and still
+// verifies as a partial certificate, and every previously assembled certificate still verifies.
+func c02ReuseStream(w *c02World, st *c02Streams) {
+	n, q := w.n, w.q
+	au := w.auth(0, false, false)
+	cfgT := w.cfgTerm(false)
+	blk := w.blocks["B5"]
+	mB := w.mBlock("B5")
+	const tcView, aggView = 31, 32
+	mV := w.mView(tcView)
+	gQC := w.mkQC(w.render(c02Spec{absent: true}), 0, "G")
+	type obj struct {
+		sig    hotstuff.QuorumSignature
+		msg    c02Msg
+		signer int
+		before []byte
+		parts  string
+	}
+	partsOf := func(s hotstuff.QuorumSignature) string {
+		var ids []string
+		s.Participants().ForEach(func(id hotstuff.ID) { ids = append(ids, fmt.Sprint(uint64(id))) })
+		return strings.Join(ids, ",")
+	}
+	mk := func(i int, m c02Msg) *obj {
+		sig, err := w.bases[i-1].Sign(m.bytes)
+		if err != nil {
+			panic(err)
+		}
+		var raw []byte
+		switch s := sig.(type) {
+		case crypto.Multi[*crypto.ECDSASignature]:
+			raw = s[0].ToBytes()
+		case crypto.Multi[*crypto.EDDSASignature]:
+			raw = s[0].ToBytes()
+		default:
+			raw = sig.ToBytes()
+		}
+		w.sigTable[string(raw)] = c02Contrib{w.id(uint64(i)), m}
+		return &obj{sig: sig, msg: m, signer: i, before: append([]byte(nil), sig.ToBytes()...), parts: partsOf(sig)}
+	}
+	votes, views, tmsgs := make([]*obj, n+1), make([]*obj, n+1), make([]*obj, n+1)
+	for i := 1; i <= n; i++ {
+		votes[i], views[i], tmsgs[i] = mk(i, mB), mk(i, mV), mk(i, w.mTimeout(uint64(i), aggView, gQC))
+	}
+	checkInputs := func(kind, after string, objs []*obj) {
+		for i := 1; i <= n; i++ {
+			o := objs[i]
+			meta := map[string]any{"scheme": w.scheme, "n": n, "kind": kind, "signer": w.id(uint64(i)), "after_assembly": after}
+			same := string(o.sig.ToBytes()) == string(o.before) && partsOf(o.sig) == o.parts
+			w.oracle(same, "reuse:input-signature-object-changed", "assembling a certificate changed one of its input signature objects (bytes or participants differ from the copy taken before): "+kind, meta)
+			ok := c02Run(func() error { return au.Verify(o.sig, o.msg.bytes) }) == "ok"
+			w.oracle(ok, "reuse:partial-signature-rejected-after-assembly", "a genuine partial signature no longer verifies after it was used in an assembly: "+kind, meta)
+			w.v.Seen(fmt.Sprintf("reuse-in|%s|%d|%s|%d|%s", w.scheme, n, kind, i, after), false, nil)
+		}
+	}
+	sel := func(objs []*obj, ids []uint64) ([]*obj, []c02Contrib, []c02Sig) {
+		var os []*obj
+		var cs []c02Contrib
+		var descs []c02Sig
+		for _, id := range ids {
+			o := objs[id]
+			os = append(os, o)
+			c := c02Contrib{w.id(id), o.msg}
+			cs = append(cs, c)
+			descs = append(descs, w.describe(o.sig, []c02Contrib{c}, false))
+		}
+		return os, cs, descs
+	}
+	rot := func(l []uint64, k int) []uint64 {
+		return append(append([]uint64(nil), l[k%len(l):]...), l[:k%len(l)]...)
+	}
+	orders := []struct {
+		name string
+		ids  []uint64
+	}{
+		{"first-q", c02Range(1, q)},
+		{"all-members", c02Range(1, n)},
+		{"last-member-first", append([]uint64{uint64(n)}, c02Range(1, q-1)...)},
+		{"second-first", rot(c02Range(1, q), 1)},
+		{"first-q-again", c02Range(1, q)},
+		{"last-q-reversed", func() []uint64 {
+			l := c02Range(n-q+1, n)
+			for a, b := 0, len(l)-1; a < b; a, b = a+1, b-1 {
+				l[a], l[b] = l[b], l[a]
+			}
+			return l
+		}()},
+	}
+	var prevQC []*c02QC
+	var prevTC []*c02TC
+	var prevAgg []*c02Agg
+	stillOK := func(kind, name string, f func() error) {
+		o := c02Run(f)
+		w.oracle(o == "ok", "reuse:earlier-certificate-rejected", "a certificate assembled earlier from the same signature objects no longer verifies after a later assembly: "+kind,
+			map[string]any{"scheme": w.scheme, "n": n, "kind": kind, "after_assembly": name, "observed": o})
+	}
+	for _, od := range orders {
+		if c02Distinct(od.ids) != len(od.ids) || len(od.ids) < 2 {
+			continue
+		}
+		name := "reuse:" + od.name
+		// ---- QC ----
+		{
+			os, cs, descs := sel(votes, od.ids)
+			pcs := make([]hotstuff.PartialCert, len(os))
+			for i, o := range os {
+				pcs[i] = hotstuff.NewPartialCert(o.sig, blk.Hash())
+			}
+			var qc hotstuff.QuorumCert
+			o := c02Run(func() error {
+				var err error
+				qc, err = au.CreateQuorumCert(blk, pcs)
+				return err
+			})
+			meta := map[string]any{"call": "CreateQuorumCert", "scheme": w.scheme, "n": n, "mutation": name, "inputs": c02SigList(descs), "observed": o}
+			w.v.Seen(fmt.Sprintf("reuse-mkqc|%s|%d|%s", w.scheme, n, od.name), true, meta)
+			w.v.Count("reuse:create-qc:" + o)
+			w.oracle(o == "ok", "reuse:create-qc-failed", "CreateQuorumCert failed on distinct genuine partial certificates: "+o, meta)
+			if o == "ok" {
+				made := w.wrapQC(qc, w.describe(qc.Signature(), cs, false))
+				w.v.Case(st.mkqc, fmt.Sprintf("(%s,(%d,%d),%s,%d,(Some %s))", cfgT, w.hashIdx[blk.Hash()], uint64(blk.View()), c02SigList(descs), made.dig, made.term), meta)
+				w.evalQC(st, made, name, true)
+				for _, p := range prevQC {
+					stillOK("qc", od.name, func() error { return au.VerifyQuorumCert(p.obj) })
+				}
+				prevQC = append(prevQC, made)
+			}
+			checkInputs("vote", od.name, votes)
+		}
+		// ---- TC ----
+		{
+			os, cs, descs := sel(views, od.ids)
+			tos := make([]hotstuff.TimeoutMsg, len(os))
+			for i, o := range os {
+				tos[i] = hotstuff.TimeoutMsg{ID: hotstuff.ID(w.id(uint64(o.signer))), View: tcView, ViewSignature: o.sig, SyncInfo: hotstuff.NewSyncInfo()}
+			}
+			var tc hotstuff.TimeoutCert
+			o := c02Run(func() error {
+				var err error
+				tc, err = au.CreateTimeoutCert(tcView, tos)
+				return err
+			})
+			meta := map[string]any{"call": "CreateTimeoutCert", "scheme": w.scheme, "n": n, "mutation": name, "inputs": c02SigList(descs), "observed": o}
+			w.v.Seen(fmt.Sprintf("reuse-mktc|%s|%d|%s", w.scheme, n, od.name), true, meta)
+			w.oracle(o == "ok", "reuse:create-tc-failed", "CreateTimeoutCert failed on distinct genuine view signatures: "+o, meta)
+			if o == "ok" {
+				sg := w.describe(tc.Signature(), cs, false)
+				made := &c02TC{obj: tc, sig: sg, view: uint64(tc.View()), term: fmt.Sprintf("(mkTC %s %d)", sg.term, uint64(tc.View()))}
+				w.v.Case(st.mktc, fmt.Sprintf("(%s,%d,%s,(Some %s))", cfgT, tcView, c02SigList(descs), made.term), meta)
+				w.evalTC(st, made, name, true)
+				for _, p := range prevTC {
+					stillOK("tc", od.name, func() error { return au.VerifyTimeoutCert(p.obj) })
+				}
+				prevTC = append(prevTC, made)
+			}
+			checkInputs("view-signature", od.name, views)
+		}
+		// ---- AggregateQC ----
+		{
+			os, cs, _ := sel(tmsgs, od.ids)
+			tos := make([]hotstuff.TimeoutMsg, len(os))
+			for i, o := range os {
+				tos[i] = hotstuff.TimeoutMsg{ID: hotstuff.ID(w.id(uint64(o.signer))), View: aggView, MsgSignature: o.sig, SyncInfo: hotstuff.NewSyncInfoWith(gQC.obj)}
+			}
+			var ag hotstuff.AggregateQC
+			o := c02Run(func() error {
+				var err error
+				ag, err = au.CreateAggregateQC(aggView, tos)
+				return err
+			})
+			meta := map[string]any{"call": "CreateAggregateQC", "scheme": w.scheme, "n": n, "mutation": name, "observed": o}
+			w.v.Seen(fmt.Sprintf("reuse-mkagg|%s|%d|%s", w.scheme, n, od.name), true, meta)
+			w.oracle(o == "ok", "reuse:create-aggqc-failed", "CreateAggregateQC failed on distinct genuine timeout messages: "+o, meta)
+			if o == "ok" {
+				made := w.mkAgg(c02QCMap(od.ids, func(uint64) *c02QC { return gQC }), w.describe(ag.Sig(), cs, false), aggView)
+				made.obj = ag
+				w.evalAgg(st, made, name, true)
+				for _, p := range prevAgg {
+					stillOK("aggqc", od.name, func() error { _, err := au.VerifyAggregateQC(p.obj); return err })
+				}
+				prevAgg = append(prevAgg, made)
+			}
+			checkInputs("timeout-message-signature", od.name, tmsgs)
+		}
+	}
+}
